@@ -852,7 +852,7 @@ impl Add for Time {
 
     fn add(self, rhs: Self) -> Self::Output {
         Time {
-            nanoseconds: self.nanoseconds + rhs.nanoseconds,
+            nanoseconds: (self.nanoseconds + rhs.nanoseconds) % NANOS_PER_DAY,
             offset: self.offset,
         }
     }
@@ -868,7 +868,8 @@ impl Sub for Time {
 
     fn sub(self, rhs: Self) -> Self::Output {
         Time {
-            nanoseconds: self.nanoseconds - rhs.nanoseconds,
+            nanoseconds: (self.nanoseconds as i64 - rhs.nanoseconds as i64)
+                .rem_euclid(NANOS_PER_DAY as i64) as u64,
             offset: self.offset,
         }
     }
@@ -883,8 +884,11 @@ impl Add<Duration> for Time {
     type Output = Self;
 
     fn add(self, rhs: Duration) -> Self::Output {
-        let nanos = self.as_nanos() + rhs.as_nanos() as u64;
-        Self::from_nanos(nanos).unwrap()
+        let nanos = (self.nanoseconds as u128 + rhs.as_nanos()) % NANOS_PER_DAY as u128;
+        Self {
+            nanoseconds: nanos as u64,
+            offset: self.offset,
+        }
     }
 }
 impl AddAssign<Duration> for Time {
@@ -897,8 +901,12 @@ impl Sub<Duration> for Time {
     type Output = Self;
 
     fn sub(self, rhs: Duration) -> Self::Output {
-        let nanos = self.as_nanos() - rhs.as_nanos() as u64;
-        Self::from_nanos(nanos).unwrap()
+        let rhs_nanos = (rhs.as_nanos() % NANOS_PER_DAY as u128) as i64;
+        let nanos = (self.nanoseconds as i64 - rhs_nanos).rem_euclid(NANOS_PER_DAY as i64);
+        Self {
+            nanoseconds: nanos as u64,
+            offset: self.offset,
+        }
     }
 }
 impl SubAssign<Duration> for Time {
